@@ -19,6 +19,7 @@ From TLV Require Import Model.Constraints Proofs.ConstraintsProofs Proofs.Constr
   Proofs.ConstraintsProofsTotal.
 From TLV Require Import Base.Ops Model.Prox Proofs.ProxProofsHard Proofs.ProxProofsMono.
 From TLV Require Import Proofs.ProxProofsUni Proofs.ConstraintsProofsUni Proofs.ConstraintsProofsFeasible.
+From TLV Require Import Model.ConstraintsOps Proofs.ConstraintsProofsStatic Proofs.ConstraintsProofsInit.
 Import ListNotations.
 Close Scope R_scope. Close Scope Q_scope.
 
@@ -102,6 +103,31 @@ Theorem C11_skeleton : forall (P M : Type) (dM : M) (op : kind -> P -> M -> M) (
      nth m fs dM = nth m (init_factors i0) dM).
 Proof. exact @cp_skeleton. Qed.
 Print Assumptions C11_skeleton.
+
+(* "initial factors are passed through the proximal operator", exactly: with a computed initialisation (svd / random) the factor
+   returned for a mode that no sweep updates (a fixed mode other than the last, or any mode with outer budget 0) is prox_of c applied
+   to the RAW initial factor of that very mode, c being the validated entry of the mode (so, by C11_validate_order, the operator of
+   exactly the request made for it) *)
+Theorem C11_untouched_mode_is_projected_initial_factor : forall (P M : Type) (truthy : P -> bool) (dM : M)
+  (op : kind -> P -> M -> M) (msub madd : M -> M -> M) (n : nat) (sp : list (kind * @zspec P)) (E : env (M := M))
+  (raw : list M) (fixed : list nat) (n_outer n_inner : nat) (zero : M) (fs : list M) (m : nat),
+  constrained_cp dM op (zvalidate truthy n sp) msub madd E n (IComputed raw) fixed n_outer n_inner zero = Ok fs ->
+  m < length raw -> ~ In m (modes_list n fixed) \/ n_outer = 0 ->
+  exists c, zvalidate truthy n sp m = Ok c /\ nth m fs dM = prox_of op c (nth m raw dM).
+Proof. exact @zcp_computed_not_updated. Qed.
+Print Assumptions C11_untouched_mode_is_projected_initial_factor.
+
+(* non-vacuity on tags: op k p v = 100 + 10 p + v; raw factors 7, 8, 9; non_negative (p = 1) everywhere; mode 0 fixed, one sweep:
+   mode 0 comes back as the operator applied to ITS raw factor (117), the updated modes as the operator applied to an iterate *)
+Example C11_untouched_mode_example :
+  let truthy := fun p : nat => negb (Nat.eqb p 0) in
+  let sp := zkeywords (fun k => match k with KNonNeg => ZScalar 1 | _ => ZNone end) in
+  let E := mkEnv (fun _ _ _ _ => 0) (fun _ _ _ _ _ _ => false) (fun _ _ _ => false) (fun _ _ => true) in
+  constrained_cp 0 (fun _ p v => 100 + 10 * p + v) (zvalidate truthy 3 sp) (fun _ _ => 0) (fun _ _ => 0) E 3 (IComputed [7; 8; 9]) [0] 1 1 0
+  = Ok [117; 110; 110] /\
+  constrained_cp 0 (fun _ p v => 100 + 10 * p + v) (zvalidate truthy 3 sp) (fun _ _ => 0) (fun _ _ => 0) E 3 (IComputed [7; 8; 9]) [] 0 1 0
+  = Ok [117; 118; 119].
+Proof. split; vm_compute; reflexivity. Qed.
 
 (* (i)+(ii), every request: the factor returned for a mode on which the user requested constraint k with parameter p
    is an output of the operator of k with p *)
@@ -256,8 +282,35 @@ Theorem C11_returned_factor_feasible : forall (P : Type) (truthy : P -> bool) (t
 Proof. exact @cp_feasible. Qed.
 Print Assumptions C11_returned_factor_feasible.
 
+(* the dispatch of proximal_operator as regenerated from the Python source on every run (a list of (kind, returned expression),
+   Model/ConstraintsOps.v; corr:C11-static decides `dispatch_ok` on the table extracted from the current source): every accepted
+   table denotes, kind by kind, exactly the operator family op_c12 of the theorems above (norm2 = sqrt of the sum of squares) ... *)
+Theorem C11_dispatch_table_sound : forall (P : Type) (toR : P -> R) (toN : P -> nat) (other : kind -> P -> mat -> mat)
+  (tbl : list (kind * dop)), dispatch_ok tbl = true ->
+  forall k, exists f, op_of_table Rops norm2 toR toN other tbl k = Some f /\ forall p x, f p x = op_c12 toR toN other k p x.
+Proof. exact @dispatch_table_sound. Qed.
+Print Assumptions C11_dispatch_table_sound.
+
+(* ... and therefore maps into the constraint set of every kind *)
+Theorem C11_dispatch_table_feasible : forall (P : Type) (toR : P -> R) (toN : P -> nat) (other : kind -> P -> mat -> mat)
+  (tbl : list (kind * dop)), dispatch_ok tbl = true ->
+  forall k f, op_of_table Rops norm2 toR toN other tbl k = Some f -> forall p x, feas_c12 toR toN k p (f p x).
+Proof. exact @dispatch_table_feasible. Qed.
+Print Assumptions C11_dispatch_table_feasible.
+
+(* non-vacuity: the table of the current code is accepted; passing decreasing=True to monotonicity_prox, dropping a branch, dropping
+   the parameter of simplex_prox or calling another operator for simplex is not *)
+Example C11_dispatch_examples :
+  dispatch_ok dispatch_as_coded = true /\
+  dispatch_ok (map (fun e => if kind_eqb (fst e) KMonotone then (KMonotone, DCall FMonotonicityProx [ATensor; AKwDecreasing true]) else e) dispatch_as_coded) = false /\
+  dispatch_ok (tl dispatch_as_coded) = false /\
+  dispatch_ok (map (fun e => if kind_eqb (fst e) KSimplex then (KSimplex, DCall FSimplexProx [ATensor]) else e) dispatch_as_coded) = false /\
+  dispatch_ok (map (fun e => if kind_eqb (fst e) KSimplex then (KSimplex, DCall FSoftSparsityProx [ATensor; AParam]) else e) dispatch_as_coded) = false.
+Proof. exact dispatch_examples. Qed.
+
 (* max-normalisation: max |entry| of the factor = 1 (the code normalises the whole factor) whenever the operator's input v is
-   not zero (otherwise 0/0) and rectangular.  _partial: the side conditions are on the operator's unknown input *)
+   a matrix proper (rect: every row as long as the first) and not zero (otherwise the code computes 0/0).
+   _partial: the side conditions are on the operator's unknown input *)
 Theorem C11_normalize_end_to_end_partial : forall (P : Type) (truthy : P -> bool) (toR : P -> R) (toN : P -> nat)
   (other : kind -> P -> mat -> mat) (dM : mat) (msub madd : mat -> mat -> mat) (n : nat) (sp : list (kind * @zspec P))
   (E : env (M := mat)) (i0 : init (M := mat)) (fixed : list nat) (n_outer n_inner : nat) (zero : mat) (fs : list mat) (m : nat),
@@ -265,13 +318,12 @@ Theorem C11_normalize_end_to_end_partial : forall (P : Type) (truthy : P -> bool
   m < length fs -> init_computed i0 = true \/ (In m (modes_list n fixed) /\ 0 < n_outer) ->
   forall (s : @zspec P) (p : P), In (KNormalize, s) sp -> zrequested truthy n s m p ->
   exists v : mat, nth m fs dM = op_c12 toR toN other KNormalize p v /\
-    ((0 < maxabs Rops (concat v))%R -> length (concat (nth m fs dM)) = length (concat v) ->
-     maxabs Rops (concat (nth m fs dM)) = 1%R).
-Proof. exact @cp_normalize. Qed.
+    (rect v -> (0 < maxabs Rops (concat v))%R -> maxabs Rops (concat (nth m fs dM)) = 1%R).
+Proof. exact @cp_normalize_rect. Qed.
 Print Assumptions C11_normalize_end_to_end_partial.
 
-(* normalised sparsity: the factor is the operator's output on some v; whenever the kept part of v is not zero (otherwise the
-   code divides 0 by 0) and v is rectangular (the output has as many entries as v): unit l2 norm and at most k non-zeros.
+(* normalised sparsity: the factor is the operator's output on some v; whenever v is a matrix proper and its kept part is not zero
+   (otherwise the code divides 0 by 0): unit l2 norm, at most k non-zeros in the factor and in every column.
    _partial: the two side conditions are on the operator's unknown input *)
 Theorem C11_normalized_sparsity_end_to_end_partial : forall (P : Type) (truthy : P -> bool) (toR : P -> R) (toN : P -> nat)
   (other : kind -> P -> mat -> mat) (dM : mat) (msub madd : mat -> mat -> mat) (n : nat) (sp : list (kind * @zspec P))
@@ -280,9 +332,10 @@ Theorem C11_normalized_sparsity_end_to_end_partial : forall (P : Type) (truthy :
   m < length fs -> init_computed i0 = true \/ (In m (modes_list n fixed) /\ 0 < n_outer) ->
   forall (s : @zspec P) (p : P), In (KNormSparsity, s) sp -> zrequested truthy n s m p ->
   exists v : mat, nth m fs dM = op_c12 toR toN other KNormSparsity p v /\
-    (sumsq Rops (hard_thresholding Rops (toN p) (concat v)) <> 0%R -> length (concat (nth m fs dM)) = length (concat v) ->
-     sumsq Rops (concat (nth m fs dM)) = 1%R /\ nnzR (concat (nth m fs dM)) <= toN p).
-Proof. exact @cp_normalized_sparsity. Qed.
+    (rect v -> sumsq Rops (hard_thresholding Rops (toN p) (concat v)) <> 0%R ->
+     sumsq Rops (concat (nth m fs dM)) = 1%R /\ nnzR (concat (nth m fs dM)) <= toN p /\
+     forall c, In c (cols_of Rops (nth m fs dM)) -> nnzR c <= toN p).
+Proof. exact @cp_normalized_sparsity_rect. Qed.
 Print Assumptions C11_normalized_sparsity_end_to_end_partial.
 
 (* requests with two constraints on one mode are rejected by the decomposition, whatever the rest *)
